@@ -323,6 +323,9 @@ class Group(_Node):
     def __iter__(self):
         return iter(self.keys())
 
+    def __reversed__(self):
+        return reversed(self.keys())
+
     def __len__(self):
         self._file._o()
         return len(self._n.ch)
